@@ -74,8 +74,13 @@ claim("C01", "DESIGN.md 5/C01", "Lean 4 induction over fuel and rank on the exec
       "Theorems in MPilot.C01 for every acyclic program (rank function on reads), every value type and every computation: a successful Command.run keeps the invariant "
       "(no body entered twice, finishes = memo, balanced log, everything a command reads finished before it) - runCmd_ok, run_ok; every command is executed exactly once "
       "(run_executes_each_exactly_once, under the premise that directly referenced results are read by their consumer, which the correspondence checks for all built-ins); "
-      "re-running or re-reading executes nothing (run_idempotent, result_memoised). Histories on the implementation include failed runs whose cause is removed, deep copies of the "
-      "program between runs (a value in the model: the copy is the program), and consumers added through the API with command objects as argument values.", PB)
+      "re-running or re-reading executes nothing (run_idempotent, result_memoised). MPilot.C01 (Props/C01Hist.lean), failures included: runCmd_any / run_any - EVERY outcome of Command.run / Program.run (finished, a failing body or input, "
+      "a refused argument, an unknown name, a rejection before execution) keeps the failure-proof invariant FInv (finished commands recorded once, the log's finishes are exactly the recorded commands, inputs finished first) and only extends log and stored results; "
+      "history_ok - after any sequence of run() calls and result reads over one acyclic program, each under its own behaviour of the bodies (a body may fail at one step and work at a later one), no command has completed twice, "
+      "every completed command's inputs completed before it, and what any prefix of the history had stored is still stored unchanged (the memo of a prefix is a prefix of the final memo); result_after_history. "
+      "Histories on the implementation include failed runs whose cause is removed, deep copies of the "
+      "program between runs (a value in the model: the copy is the program), consumers added through the API with command objects as argument values, and a referenced command deleted and added again under its name after a failed run "
+      "(the `del` step lives in the driver, outside the theorems).", PB)
 claim("C02", "DESIGN.md 5/C02", "Lean 4 theorems (the run computes a solution of the graph equations; solutions are unique) + replay of every real execute call on the model + invariance oracles",
       "Theorems in MPilot.C02: run_sol (after a successful run every memoised result equals compute applied to the results of the commands it reads), sol_unique "
       "(an acyclic graph has at most one such assignment: its evaluation), results_order_independent (any permutation of the commands gives the same results), "
